@@ -584,7 +584,7 @@ Lemma run_inv : forall ec er fl children o, in_domain ec er children ->
 Proof.
   intros ec er fl children o (Hec & Her & Hlen & Hch) H. unfold grid_placement_run in H.
   apply bind_ok in H. destruct H as [[cc rc] [Eest H]].
-  apply estimate_bounds in Eest; auto; [|rewrite Forall_map; exact Hch].
+  apply estimate_bounds in Eest; auto; [|unfold estimate_children; rewrite Forall_map; rewrite Forall_forall in *; intros x0 Hx0; apply filter_In in Hx0; apply Hch; tauto].
   destruct Eest as (Hc1 & Hc2 & Hc3 & Hc4 & Hr1 & Hr2 & Hr3 & Hr4).
   apply bind_ok in H. destruct H as [m0 [Em0 H]].
   apply with_track_counts_wf in Em0; auto; try lia. destruct Em0 as (Hwf0 & Hmc & Hmr).
